@@ -59,7 +59,7 @@ def check(ctx):
             vals = range(65536) if ctx.thorough else boundary(2) + [rng.randrange(65536) for _ in range(150)]
             bases = bases_all if not ctx.thorough else [2, 3, 8, 10, 16, 36]
         else:
-            vals = boundary(w) + [rng.getrandbits(8 * w) for _ in range(400 if ctx.thorough else 60)]
+            vals = boundary(w) + [rng.getrandbits(8 * w) for _ in range(3000 if ctx.thorough else 60)]
             bases = bases_all if ctx.thorough else [2, 7, 8, 10, 16, 36] + rng.sample(bases_all, 3)
         for v in vals:
             for b in (bases if w > 1 or ctx.thorough else [2, 8, 10, 16, 36, rng.choice(bases_all)]):
@@ -68,7 +68,7 @@ def check(ctx):
     terms = [[], [32], [46], [45], [103], [71], [122], [48], [57], [0, 49]]
     for fn in ["i8", "u8", "i16", "u16", "i32", "u32", "i64", "u64"]:
         w = WIDTH[fn]
-        for i in range(1500 if ctx.thorough else 250):
+        for i in range(15000 if ctx.thorough else 250):
             base = rng.choice(bases_all) if i % 3 else rng.choice([2, 8, 10, 16, 36])
             v = rng.choice(boundary(w)) if i % 2 else rng.getrandbits(8 * w)
             txt = render(v, base)
